@@ -218,6 +218,20 @@ def run_unit(name, fn, max_paths=200000, max_seconds=600, sample_limit=2, trace_
         res.outcomes[env.notes.get('outcome', 'ok' if not isinstance(r, Exception) else type(r).__name__)] = \
             res.outcomes.get(env.notes.get('outcome', 'ok' if not isinstance(r, Exception)
                                            else type(r).__name__), 0) + 1
+        if VALUE_LEMMAS and len(claims) > 8 and not isinstance(r, Exception):
+            eqs = value_lemmas(ctx, claims, res)
+            if eqs:
+                # the proved equalities join the path condition while this path's obligations are decided
+                ctx.solver.push()
+                for e_ in eqs:
+                    ctx.solver.add(e_)
+                try:
+                    return decide_claims(claims, ctx, env)
+                finally:
+                    ctx.solver.pop()
+        return decide_claims(claims, ctx, env)
+
+    def decide_claims(claims, ctx, env):
         neg = []
         for cl in claims:
             neg.append(z3.Not(cl[1]))
@@ -328,6 +342,50 @@ def run_unit(name, fn, max_paths=200000, max_seconds=600, sample_limit=2, trace_
             res.inconclusive.append({'why': 'vacuous: no path reached the observation point'})
     res.wall_s = time.time() - t0
     return res
+
+
+VALUE_LEMMAS = os.environ.get('VERIF_VALUE_LEMMAS', '0') == '1'  # measured: 0-25% on the long-pole rows; off by default
+
+
+def value_lemmas(ctx, claims, res):
+    """Each of the ~34 register claims of a step has the shape  If(c, v_code, old) == If(c', v_oracle, old)  and makes
+    the solver re-derive v_code == v_oracle (the instruction's arithmetic) once per register.  The values written on
+    this path by the code (recorded by the Registers.set summaries) and by the oracle are paired; a pair proved
+    equal under the path condition is asserted while the claims are decided (sound: an equality valid under the path condition
+    may be added to it).  Pairs that are not proved are simply
+    not used -- nothing is reported from here."""
+    try:
+        from spec import state as ST
+    except Exception:
+        return []
+    impl = []
+    for v in ST.WRITES_IMPL:
+        if not any(v.eq(x) for x in impl):
+            impl.append(v)
+    orac = []
+    for v in ST.WRITES_OR:
+        if not any(v.eq(x) for x in orac):
+            orac.append(v)
+    if os.environ.get('VERIF_SLOW'):
+        print('LEMMA candidates impl=%d oracle=%d' % (len(impl), len(orac)), flush=True)
+    if not impl or not orac or len(impl) > 4 or len(orac) > 6:
+        return []
+    pairs = []
+    for a in impl:
+        if any(a.eq(b) for b in orac):
+            continue
+        for b in orac:
+            if b.size() != a.size():
+                continue
+            _t = time.time()
+            r, _ = ctx.model(a != b, quick=True)
+            if os.environ.get('VERIF_SLOW'):
+                print('LEMMA try %s %.1fs' % (r, time.time() - _t), flush=True)
+            if r == z3.unsat:
+                pairs.append((a, b))
+                res.lemmas = getattr(res, 'lemmas', 0) + 1
+                break
+    return [a == b for a, b in pairs]
 
 
 def from_code(ex):
